@@ -1,11 +1,14 @@
 """C03 Covariance construction is independent of process count and scheduling.
 
 E4 + E3: the real CovarianceMatrix object is driven through every history of rebuilds
-(thread count toggled) and, inside every multi-process build, through every completion
-order a k-worker FIFO pool can produce (controlled pool substituted for
-`slopecovariance.multiprocessing`).  Every schedule is also replayed on the REAL
-multiprocessing.Pool with injected delays that force that order, and the scheduler model
-is cross-checked against a TLA+ model explored by TLC.
+(thread count toggled, the caller editing the returned matrix in place between builds) and,
+inside every multi-process build, through every completion order a k-worker FIFO pool can
+produce (every way the library can reach a process pool or a concurrent.futures executor is
+redirected to controlled ones, `mc.sched.patched_pools` / `patched_executors`).  Histories over
+two live objects with different geometry, long FIFO histories with held results, builds on the
+unpatched real pool, replays of every schedule on the REAL multiprocessing.Pool with injected
+delays that force that order, and a cross-check of the scheduler model against a TLA+ model
+explored by TLC complete it.
 """
 import itertools
 import os
@@ -24,37 +27,60 @@ from mc.core import digest, VERIF
 PROPERTY = "C03"
 LEVEL = "model_checking"
 OWN_SCHEDULING = True      # this check drives the pools itself
+# every case runs in a forked child: controlled pools that a library keeps at module level, worker processes it
+# leaves behind and anything else it remembers cannot reach the next case (the verdict of a case does not depend on
+# which cases shared a worker with it, i.e. not on VERIF_SEED / VERIF_JOBS / --only)
+ISOLATE_CASES = True
 ENGINES = ["E4-schedule-exploration", "E3-explicit-state-history-search"]
 TECHNIQUE = ("stateless schedule exploration (all completion orders of a k-worker FIFO pool, "
              "deviation-bounded where stated) of the real builder under a controlled pool, over all rebuild "
-             "histories to a depth bound; every schedule replayed on the real multiprocessing.Pool; "
-             "scheduler model cross-checked with TLC")
-RULE = ("case = (configuration, history of thread counts); inside a case every choice sequence of the "
+             "histories to a depth bound with the caller editing each returned matrix in place; histories over two "
+             "live objects of different geometry; long FIFO histories with held results; every schedule of the small "
+             "configurations replayed on the real multiprocessing.Pool; unpatched real-pool builds for every "
+             "configuration and worker count; scheduler model cross-checked with TLC")
+RULE = ("case = (configuration, history of thread counts [, which of two objects builds]); the first letter of a "
+        "history constructs the object with that thread count, later letters assign `threads`; after every build the "
+        "caller overwrites the returned matrix in place; inside a case every choice sequence of the "
         "controlled pool (which running chunk finishes next, at every map call of every build) is "
         "enumerated; an execution is non-trivial when at least one completion differs from FIFO order")
 ASSUMPTIONS = [
     "pool model: FIFO task queue, k workers, chunking as multiprocessing.Pool.map; nondeterminism = which "
     "running chunk completes next (validated against the real pool by forced-order replays and against TLC)",
-    "tasks are executed in-process in completion order by the controlled pool; pickling of float64 arrays is "
-    "exact (exercised by the real-pool replays)",
-    "geometries: the 4 configurations listed in bounds; worker counts 1..4; history depth bound per tier",
+    "tasks are executed in-process in completion order by the controlled pool; task arguments and results pass "
+    "through pickle in both directions as they do between processes (also exercised by the real-pool builds)",
+    "the reference of every build is the single-process build of a fresh object with the same parameters in the same "
+    "interpreter; object parameters other than `threads` are not edited between builds (the statement does not say "
+    "what such an edit means)",
+    "geometries: the configurations listed in bounds (1-4 sensors, 1-10 layers, up to 400 matrix rows); worker "
+    "counts 1..4; history depth bound per tier",
 ]
 LEVEL_TEXT = ("Every completion order of the per-WFS-pair tasks for worker counts 1..4 and every rebuild history "
               "up to the depth bound is executed on the real CovarianceMatrix code under a controlled scheduler "
-              "(complete for 2-sensor geometries and for 3-sensor single-layer builds; deviation-bounded otherwise) "
+              "(complete for the 1- and 2-sensor 2x2 geometries and for 3-sensor single-layer builds; "
+              "deviation-bounded otherwise) "
               "and compared bit for bit with the single-process reference; all schedules of the small "
               "configurations are replayed on the real multiprocessing.Pool, and the scheduler model's set of "
               "completion orders equals TLC's for the same (n,k).")
 LEVEL_NOTE = ("Trusted: the FIFO/chunking pool model (bound to the real pool by replay: observed completion order "
-              "must equal the scheduled one), numpy bit comparison. Not covered: other start methods than fork, "
-              "more than 3 sensors, worker crashes.")
+              "must equal the scheduled one; recorded as evidence, a miss is a note), numpy bit comparison. "
+              "Not covered: other start methods than fork, more than 4 sensors, matrices above 400 rows, worker "
+              "crashes, edits of object parameters other than `threads` between builds.")
 
 UNIT = 0.04   # seconds between forced completions on the real pool
 MAX_RUNS = {"quick": 8000, "thorough": 60000}
+# wall-clock cap of the forced-order replays of one case (they sleep, they do not compute; the cap only limits how much
+# binding evidence is collected, it never decides a verdict): every schedule of the plan fits when orders reproduce
+# at the first attempt (the largest, C2 k=3, has 216 schedules of ~0.7 s)
+REAL_CAP_S = {"quick": 40.0, "thorough": 300.0}
 
 
 def _mask(rows):
     return numpy.array(rows, dtype=int)
+
+
+def _disc(n, r2):
+    y, x = numpy.mgrid[:n, :n]
+    return (((x - (n - 1) / 2.) ** 2 + (y - (n - 1) / 2.) ** 2) <= r2).astype(int).tolist()
 
 
 CONFIGS = {
@@ -81,23 +107,87 @@ CONFIGS = {
     "F2": dict(n_wfs=2, masks=[[[1, 1], [1, 1]], [[1, 1, 0], [1, 1, 1], [0, 1, 1]]], D=1.2, sd=[0.6, 0.4],
                gsalt=[13500., 0], gspos=[[10., 4.], [-6., 0.]], wl=[532e-9, 700e-9],
                layers=[(0., 0.2, 25.), (9000., 0.4, 30.), (16000., 0.5, 50.)]),
+    # four sensors: 10 tasks per map call, so Pool.map cuts chunks of two tasks for k=2 (10 > 4k) - a batching rule
+    # with the usual threshold lives here
+    "G4": dict(n_wfs=4, masks=[[[1, 1], [1, 1]], [[1, 0], [1, 1]], [[1, 1], [0, 1]], [[0, 1], [1, 0]]], D=1.0,
+               sd=[0.5, 0.5, 0.5, 0.5], gsalt=[0, 90000., 90000., 25000.],
+               gspos=[[0, 0], [25., 0.], [-12., 21.], [-12., -21.]], wl=[500e-9, 589e-9, 589e-9, 532e-9],
+               layers=[(0., 0.2, 25.), (8000., 0.4, 20.)]),
+    # one sensor: a single task per map call, every worker count exceeds the number of pairs
+    "H1": dict(n_wfs=1, masks=[[[1, 1], [1, 1]]], D=1.0, sd=[0.5], gsalt=[90000.], gspos=[[8., -3.]], wl=[589e-9],
+               layers=[(0., 0.2, 25.), (6000., 0.35, 15.)]),
+    # size class: two 12x12 sensors with 112 and 88 sub-apertures - a 400 x 400 matrix, blocks of 10^4 elements
+    # returned by the workers (a transport or dtype that changes with size would show here)
+    "S2": dict(n_wfs=2, masks=[_disc(12, 36.), _disc(12, 30.)], D=4.2, sd=[0.35, 0.35],
+               gsalt=[90000., 0], gspos=[[10., 4.], [-6., 0.]], wl=[589e-9, 700e-9],
+               layers=[(4000., 0.2, 25.), (9000., 0.4, 30.)]),
+}
+# a second asterism for the same sensors (same n_wfs, masks, layers): the object "<cfg>~" lives next to "<cfg>" in
+# the two-object histories
+ALT = {
+    "A2": dict(gspos=[[0, 0], [-35., 40.]]),
+    "B3": dict(gspos=[[0, 0], [-40., 12.], [22., -31.]]),
+    "F2": dict(gspos=[[-30., 14.], [9., 26.]]),
+    "E2": dict(gspos=[[-20., 15.], [33., -5.]]),
+    "G4": dict(gspos=[[0, 0], [-31., 8.], [14., -27.], [19., 30.]]),
+    "S2": dict(gspos=[[-25., 9.], [17., -30.]]),
 }
 THREADS = [1, 2, 3, 4]
+
+
+def _cfg(name):
+    if name.endswith("~"):
+        c = dict(CONFIGS[name[:-1]])
+        c.update(ALT[name[:-1]])
+        return c
+    return CONFIGS[name]
 
 
 def BOUNDS(tier):
     return {"configs": {k: {"n_wfs": v["n_wfs"], "n_layers": len(v["layers"]),
                             "n_subaps": [int(numpy.sum(m)) for m in v["masks"]]} for k, v in CONFIGS.items()},
+            "largest_matrix_rows": max(2 * sum(int(numpy.sum(m)) for m in v["masks"]) for v in CONFIGS.values()),
             "threads": THREADS, "plan": [list(map(str, p)) for p in _plan(tier)],
+            "two_object_plan": [list(map(str, p)) for p in _pair_plan(tier)],
+            "long_fifo_histories": {"configs": _deep_cfgs(tier), "depth": _deep_depth(tier)},
+            "real_pool_forced_order": [list(map(str, p)) for p in _real_plan(tier)],
+            "real_pool_unpatched": _realfifo_cfgs(tier),
             "tlc": _tlc_pairs(tier), "real_pool_unit_s": UNIT}
 
 
 def _plan(tier):
     """(config, depth, deviation bound or None=all)"""
     if tier == "quick":
-        return [("A2", 2, None), ("B3", 1, None), ("B3", 2, 2), ("C2", 2, 2), ("D3", 1, 2), ("E2", 2, 1), ("F2", 2, 1)]
+        return [("A2", 2, None), ("B3", 1, None), ("B3", 2, 2), ("C2", 2, 2), ("D3", 1, 2), ("E2", 2, 1), ("F2", 2, 1),
+                ("H1", 2, None), ("G4", 2, 1), ("S2", 1, 1)]
     return [("A2", 3, 3), ("A2", 2, None), ("B3", 1, None), ("B3", 2, 3), ("C2", 2, None), ("C2", 3, 2),
-            ("D3", 1, 4), ("D3", 2, 2), ("B3", 3, 2), ("E2", 2, 2), ("E2", 3, 1), ("F2", 2, None), ("F2", 3, 1)]
+            ("D3", 1, 4), ("D3", 2, 2), ("B3", 3, 2), ("E2", 2, 2), ("E2", 3, 1), ("F2", 2, None), ("F2", 3, 1),
+            ("H1", 3, None), ("G4", 1, 2), ("G4", 2, 1), ("S2", 1, 2), ("S2", 2, 1)]
+
+
+def _pair_plan(tier):
+    """two live objects (config and its second asterism): (config, depth, deviation bound)"""
+    if tier == "quick":
+        return [("A2", 2, 1), ("B3", 2, 1), ("F2", 2, 1)]
+    return [("A2", 3, 1), ("A2", 2, None), ("B3", 2, 2), ("B3", 3, 1), ("F2", 2, 2), ("E2", 2, 1), ("G4", 2, 1)]
+
+
+def _deep_cfgs(tier):
+    return ["A2", "B3", "C2", "D3", "F2", "G4", "H1"] + (["E2"] if tier != "quick" else [])
+
+
+def _deep_depth(tier):
+    return 4 if tier == "quick" else 5
+
+
+def _real_plan(tier):
+    if tier == "quick":
+        return [("A2", 2), ("A2", 3), ("B3", 2)]
+    return [("A2", 2), ("A2", 3), ("A2", 4), ("B3", 2), ("B3", 3), ("C2", 2), ("C2", 3)]
+
+
+def _realfifo_cfgs(tier):
+    return list(CONFIGS)
 
 
 def _tlc_pairs(tier):
@@ -117,30 +207,50 @@ def cases(tier):
                 seen.add(key)
                 yield Case(cid, {"kind": "explore", "cfg": cfg, "hist": list(hist), "bound": bound, "tier": tier},
                            any(t > 1 for t in hist))
-    real = [("A2", 2), ("A2", 3), ("B3", 2)] if tier == "quick" else \
-        [("A2", 2), ("A2", 3), ("A2", 4), ("B3", 2), ("B3", 3), ("C2", 2), ("C2", 3)]
-    for cfg, k in real:
-        yield Case("realpool:%s:k=%d" % (cfg, k), {"kind": "real", "cfg": cfg, "k": k,
+    # two live objects a, b with different geometry building in turn (every history in which both build)
+    seen = set()
+    for cfg, depth, bound in _pair_plan(tier):
+        for d in range(2, depth + 1):
+            for objs in itertools.product((0, 1), repeat=d):
+                if len(set(objs)) < 2:
+                    continue
+                for hist in itertools.product(THREADS, repeat=d):
+                    key = (cfg, objs, hist)
+                    if key in seen:
+                        continue
+                    seen.add(key)
+                    word = "".join("ab"[oi] + str(t) for oi, t in zip(objs, hist))
+                    cid = "pair:%s:h=%s:dev=%s" % (cfg, word, "all" if bound is None else bound)
+                    yield Case(cid, {"kind": "explore", "cfg": cfg, "hist": list(hist), "objs": list(objs),
+                                     "bound": bound, "tier": tier}, any(t > 1 for t in hist))
+    for cfg in _deep_cfgs(tier):
+        for t in THREADS:
+            yield Case("deep:%s:first=%d:depth=%d" % (cfg, t, _deep_depth(tier)),
+                       {"kind": "deep", "cfg": cfg, "first": t, "depth": _deep_depth(tier)})
+    for cfg, k in _real_plan(tier):
+        yield Case("realpool:%s:k=%d" % (cfg, k), {"kind": "real", "cfg": cfg, "k": k, "tier": tier,
                                                     "bound": None if CONFIGS[cfg]["n_wfs"] == 2 else 2})
+    for cfg in _realfifo_cfgs(tier):
+        yield Case("realfifo:%s" % cfg, {"kind": "realfifo", "cfg": cfg})
     for n, k in _tlc_pairs(tier):
         yield Case("tlc:n=%d:k=%d" % (n, k), {"kind": "tlc", "n": n, "k": k})
     yield Case("selftest:order-sensitive-collectors", {"kind": "selftest"})
 
 
-def _make(cfg):
+def _make(cfg, threads=1):
     from aotools.turbulence import slopecovariance as sc
-    c = CONFIGS[cfg]
+    c = _cfg(cfg)
     L = c["layers"]
     if c.get("forms") == "ndarray":
         A = numpy.array
         return sc.CovarianceMatrix(
             c["n_wfs"], A([_mask(m) for m in c["masks"]]), c["D"], A(c["sd"], dtype=float), A(c["gsalt"], dtype=float),
             A(c["gspos"], dtype=float), A(c["wl"], dtype=float), len(L), A([l[0] for l in L], dtype=float),
-            A([l[1] for l in L], dtype=float), A([l[2] for l in L], dtype=float), threads=1)
+            A([l[1] for l in L], dtype=float), A([l[2] for l in L], dtype=float), threads=threads)
     return sc.CovarianceMatrix(
         c["n_wfs"], [_mask(m) for m in c["masks"]], c["D"], list(c["sd"]), list(c["gsalt"]),
         [list(p) for p in c["gspos"]], list(c["wl"]), len(L), [l[0] for l in L], [l[1] for l in L],
-        [l[2] for l in L], threads=1)
+        [l[2] for l in L], threads=threads)
 
 
 def _bits(m):
@@ -148,82 +258,171 @@ def _bits(m):
     return (str(m.dtype), m.shape, numpy.ascontiguousarray(m).tobytes())
 
 
-def _geom_state(obj):
-    return digest([[numpy.asarray(x) for x in lay] for lay in obj.subap_layer_positions] +
-                  [[numpy.asarray(x, dtype=float) for x in lay] for lay in obj.subap_layer_diameters])
-
-
 def _sizes(obj):
+    """observation only (never a clause): lengths of the sequences / shapes of the arrays the object holds"""
     out = {}
-    for k, v in sorted(obj.__dict__.items()):
-        if isinstance(v, (list, tuple)):
-            out[k] = ("seq", len(v), tuple(len(x) if isinstance(x, (list, tuple)) else -1 for x in v))
-        elif isinstance(v, numpy.ndarray):
-            out[k] = ("arr", v.shape)
+    try:
+        for k, v in sorted(vars(obj).items()):
+            if isinstance(v, (list, tuple)):
+                out[k] = ("seq", len(v), tuple(len(x) if isinstance(x, (list, tuple)) else -1 for x in v))
+            elif isinstance(v, numpy.ndarray):
+                out[k] = ("arr", v.shape)
+    except Exception:
+        return None
     return out
 
 
 def _reference(cfg):
-    obj = _make(cfg)
-    ref = obj.make_covariance_matrix()
-    return _bits(ref), _geom_state(obj)
+    """bits of the single-process build of a fresh object (no pool involved)"""
+    return _bits(_make(cfg).make_covariance_matrix())
+
+
+def _caller_edit(m):
+    """The caller owns the matrix it was handed and overwrites it in place (what adding a noise variance, scaling or
+    zeroing before an inversion does).  Finite values: a builder that resets a kept buffer by arithmetic
+    (`buf *= 0`) stays correct.  A result that cannot be written (a builder may protect what it hands out) is
+    left alone."""
+    try:
+        if isinstance(m, numpy.ndarray) and m.size and m.flags.writeable:
+            m[...] = 1.5
+            return True
+    except Exception:
+        pass
+    return False
 
 
 def evaluate(p):
     kind = p["kind"]
     if kind == "explore":
         return _explore(p)
+    if kind == "deep":
+        return _deep(p)
     if kind == "real":
         return _real(p)
+    if kind == "realfifo":
+        return _realfifo(p)
     if kind == "tlc":
         return _tlc(p)
     return _selftest()
 
 
+# ----------------------------------------------------------------------------- one execution of a history
+
+class _controlled(object):
+    """Every way of the library to a process pool or a concurrent.futures executor redirected to controlled ones
+    (`sched.patched_pools`, `sched.patched_executors`) - once for all executions of a case (finding the names to
+    redirect costs as much as a small build); `bind` hands the controlled pools the chooser of the execution that
+    starts (`sched.set_current_chooser`: pools bind to the current chooser at their first use)."""
+
+    def __enter__(self):
+        self.pp = sched.patched_pools(None)
+        self.pp.__enter__()
+        try:
+            self.pe = sched.patched_executors(self.pp.chooser)
+            self.pe.__enter__()
+        except BaseException:
+            self.pp.__exit__(None, None, None)
+            raise
+        return self
+
+    def bind(self, ch):
+        del self.pp.chooser.orders[:]      # (pools register with the chooser they were made under; not used)
+        sched.set_current_chooser(ch)
+        return self.pp.pools_created
+
+    def __exit__(self, *exc):
+        try:
+            self.pe.__exit__(*exc)
+        finally:
+            self.pp.__exit__(*exc)
+        return False
+
+
+def _execute(cfg, hist, objs, prefix, refs, edit=True, recon_steps=(), ctx=None):
+    """One execution: the history of builds under the controlled pools driven by the choice sequence `prefix`.
+    objs[i] says which of the two live objects (0: cfg, 1: cfg~) builds at step i; refs[oi] are the reference bits.
+    -> (chooser, (observations, pool records, pools created, results still held by the caller))"""
+    if ctx is None:
+        with _controlled() as c:
+            return _execute(cfg, hist, objs, prefix, refs, edit, recon_steps, c)
+    ch = sched.Chooser(prefix)
+    obs = []
+    held = []
+    pools0 = ctx.bind(ch)
+    try:
+        live = {}
+        sizes_prev = {}
+        for step, t in enumerate(hist):
+            oi = objs[step]
+            try:
+                if oi not in live:
+                    # the documented calling convention: the worker count is given at construction
+                    live[oi] = _make(cfg + ("~" if oi else ""), threads=t)
+                else:
+                    live[oi].threads = t
+                obj = live[oi]
+                m = obj.make_covariance_matrix()
+            except Exception as e:      # a schedule-dependent crash is a violation of that schedule
+                obs.append({"bits": False, "attr": None, "digest": "raised %s: %s" % (type(e).__name__, str(e)[:200]),
+                            "raised": True, "growth": None})
+                break
+            ob = {"bits": _bits(m) == refs[oi], "digest": digest(m), "raised": False, "attr": None, "growth": None}
+            try:
+                attr = getattr(obj, "covariance_matrix", None)
+                if attr is not None:
+                    ob["attr"] = bool(m is attr or (numpy.shape(attr) == numpy.shape(m) and
+                                                    numpy.array_equal(m, attr, equal_nan=True)))
+            except Exception:
+                ob["attr"] = None
+            if step in recon_steps:
+                # the one other method that reads the object's matrix, between two builds
+                try:
+                    obj.make_tomographic_reconstructor()
+                    ob["recon"] = True
+                except Exception as e:
+                    ob["recon"] = "%s: %s" % (type(e).__name__, str(e)[:120])
+            sz = _sizes(obj)
+            if sz is not None and sizes_prev.get(oi) is not None and sizes_prev[oi][0] == t:
+                ob["growth"] = sz != sizes_prev[oi][1]
+            sizes_prev[oi] = (t, sz)
+            if edit:
+                ob["edited"] = _caller_edit(m)
+            else:
+                held.append((oi, m))
+            obs.append(ob)
+    finally:
+        sched.set_current_chooser(ctx.pp.chooser)
+    # (every pool is made under the case-wide chooser and bound to this execution's at its first use, which the pool
+    # records as a re-use: the flag says nothing here)
+    orders = [{k: v for k, v in od.items() if k != "reused_pool"} for od in ch.orders]
+    return ch, (obs, orders, ctx.pp.pools_created - pools0, held)
+
+
+def _bad(ob):
+    return ob["raised"] or not ob["bits"] or ob["attr"] is False
+
+
 # ----------------------------------------------------------------------------- explorer
 
 def _explore(p):
-    from aotools.turbulence import slopecovariance as sc
     o = Out()
     cfg, hist, bound = p["cfg"], p["hist"], p["bound"]
-    ref_bits, ref_geom = _reference(cfg)
-    o.stat("lib_calls", 1)
+    objs = p.get("objs") or [0] * len(hist)
+    refs = {oi: _reference(cfg + ("~" if oi else "")) for oi in sorted(set(objs))}
+    o.stat("lib_calls", len(refs))
+    if len(refs) == 2 and refs[0] == refs[1]:
+        # vacuity observation of the two-object histories (the two geometries are meant to give different matrices)
+        o.stat("observed_two_objects_with_identical_matrices", 1)
     model_states = set()
 
-    def run(prefix):
-        ch = sched.Chooser(prefix)
-        fake = sched.FakeMultiprocessing(ch)
-        saved = sc.multiprocessing
-        sc.multiprocessing = fake
-        obs = []
-        try:
-            obj = _make(cfg)
-            sizes_prev = None
-            for step, t in enumerate(hist):
-                obj.threads = t
-                try:
-                    m = obj.make_covariance_matrix()
-                except Exception as e:      # a schedule-dependent crash is a violation of that schedule
-                    obs.append((False, False, False, "raised %s: %s" % (type(e).__name__, str(e)[:200]), True))
-                    break
-                same_obj_attr = m is obj.covariance_matrix or numpy.array_equal(m, obj.covariance_matrix)
-                obs.append((_bits(m) == ref_bits, _geom_state(obj) == ref_geom, same_obj_attr,
-                            digest(m)))
-                sz = _sizes(obj)
-                if sizes_prev is not None and step >= 1 and hist[step] == hist[step - 1]:
-                    obs[-1] = obs[-1] + (sz == sizes_prev,)
-                else:
-                    obs[-1] = obs[-1] + (True,)
-                sizes_prev = sz
-        finally:
-            sc.multiprocessing = saved
-        return ch, (obs, list(ch.orders), fake.pools_created)
-
-    t0 = time.time()
     # the cap is far above anything the unchanged builder needs (<= 1296 schedules per history in the quick
     # tier, <= 46656 in the thorough one); it only bites when a changed builder submits many more tasks per call
-    runs, capped = sched.explore(run, bound=bound, max_runs=MAX_RUNS[p.get("tier", "quick")], max_bad=40,
-                                 is_bad=lambda ob: any(not (x[0] and x[1] and x[2] and x[4]) for x in ob[0]))
+    with _controlled() as ctx:
+        def run(prefix):
+            ch, res = _execute(cfg, hist, objs, prefix, refs, ctx=ctx)
+            return ch, res[:3]
+        runs, capped = sched.explore(run, bound=bound, max_runs=MAX_RUNS[p.get("tier", "quick")], max_bad=40,
+                                     is_bad=lambda ob: any(_bad(x) for x in ob[0]))
     if capped:
         o.stat("caps_hit", 1)
     o.stat("schedules_explored", len(runs))
@@ -234,145 +433,442 @@ def _explore(p):
         if any(choices):
             nontriv += 1
         for step, ob in enumerate(obs):
-            o.check("bit_identical_to_single_process", ob[0], sub="%s:build=%d" % (tag, step),
-                    detail={"history": hist, "choices": list(choices), "orders": orders,
-                            "observed": ob[3]})
-            o.check("geometry_state_rebuilt", ob[1], sub="%s:build=%d" % (tag, step))
-            o.check("returned_is_object_matrix", ob[2], sub="%s:build=%d" % (tag, step))
-            o.check("no_state_growth_between_identical_builds", ob[4], sub="%s:build=%d" % (tag, step))
-            o.outcome(ob[3])
+            o.check("bit_identical_to_single_process", ob["bits"], sub="%s:build=%d" % (tag, step),
+                    detail={"history": hist, "objects": objs, "choices": list(choices), "orders": orders,
+                            "observed": ob["digest"]})
+            if ob["attr"] is None:
+                if not ob["raised"]:
+                    o.stat("returned_is_object_matrix_not_claimed", 1)   # no `covariance_matrix` attribute to compare
+            else:
+                o.check("returned_is_object_matrix", ob["attr"], sub="%s:build=%d" % (tag, step))
+            if ob["growth"]:
+                o.stat("observed_state_growth_between_identical_builds", 1)      # observation, not a clause
+            if ob.get("edited") is False:
+                o.stat("caller_edit_not_possible", 1)
+            o.outcome(ob["digest"])
         o.stat("transitions", len(choices) + len(obs))
         # scheduler states visited on this execution (per pool call: prefix of the completion order)
         for ci, od in enumerate(orders):
             for j in range(len(od["completion"]) + 1):
                 model_states.add((ci, od["k"], len(od["chunks"]), tuple(od["completion"][:j])))
-        expect_pools = sum(1 for t in hist if t != 1)
-        o.check("one_pool_per_mp_build", pools == expect_pools, sub=tag,
-                detail="pools created %d, multi-process builds %d" % (pools, expect_pools))
+        # vacuity observation (not a clause: a builder may keep its pools or remember a result)
+        if any(t != 1 for t in hist) and not any(od["chunks"] for od in orders):
+            o.stat("observed_mp_history_without_pool_task", 1)
+        o.stat("pools_created", pools)
     o.stat("states", len(model_states) + len(hist) + 1)
     o.stat("nontrivial", max(0, nontriv - 1))
     o.note("example_orders", runs[-1][1][1][:2] if runs else None)
     return o
 
 
+# ----------------------------------------------------------------------------- long FIFO histories
+
+def _deep(p):
+    """Every history of `depth` builds that starts with `first` workers, FIFO schedule only, run twice:
+    (edit) the caller overwrites every returned matrix, (hold) the caller keeps every returned matrix untouched and
+    calls the tomographic reconstructor between builds - at the end every held matrix still has the reference bits
+    (the parameters never change, so a builder that re-uses one buffer rewrites it with the same values)."""
+    o = Out()
+    cfg, first, depth = p["cfg"], p["first"], p["depth"]
+    ref = _reference(cfg)
+    refs = {0: ref}
+    o.stat("lib_calls", 1)
+    recon_ok = True
+    try:
+        probe = _make(cfg)
+        probe.make_covariance_matrix()
+        probe.make_tomographic_reconstructor()
+    except Exception:
+        recon_ok = False       # nothing is claimed about the reconstructor of this geometry (a single sensor has none)
+        o.stat("reconstructor_letter_not_claimed", 1)
+    with _controlled() as ctx:
+        for rest in itertools.product(THREADS, repeat=depth - 1):
+            hist = [first] + list(rest)
+            word = "".join(map(str, hist))
+            for mode in ("edit", "hold"):
+                # (never after the last build, and a matrix the reconstructor has read is not among the held ones that
+                # are compared: whether the reconstructor may touch its input is not this property's business)
+                steps = tuple(range(0, depth - 1, 2)) if (mode == "hold" and recon_ok) else ()
+                ch, (obs, orders, pools, held) = _execute(cfg, hist, [0] * depth, (), refs, edit=(mode == "edit"),
+                                                          recon_steps=steps, ctx=ctx)
+                o.stat("builds_executed", len(obs))
+                o.stat("schedules_explored", 1)
+                o.stat("transitions", len(obs))
+                for step, ob in enumerate(obs):
+                    o.check("bit_identical_to_single_process", ob["bits"], sub="h=%s:%s:build=%d" % (word, mode, step),
+                            detail={"history": hist, "observed": ob["digest"], "mode": mode})
+                    if ob["attr"] is not None:
+                        o.check("returned_is_object_matrix", ob["attr"], sub="h=%s:%s:build=%d" % (word, mode, step))
+                    if isinstance(ob.get("recon"), str):
+                        o.stat("observed_reconstructor_exception", 1)
+                        o.note("reconstructor_exception", ob["recon"])
+                    o.outcome(ob["digest"])
+                if mode == "hold" and len(obs) == depth:
+                    for step, (oi, m) in enumerate(held):
+                        if step in steps:
+                            continue
+                        o.check("held_result_unchanged_by_later_builds", _bits(m) == ref,
+                                sub="h=%s:build=%d" % (word, step), detail={"history": hist})
+    o.stat("states", depth + 1)
+    return o
+
+
 # ----------------------------------------------------------------------------- real pool
+
+class _Task(object):
+    """Picklable wrapper of one pool task for the forced-order replays on the real pool: sleeps as planned, runs the
+    library's own callable on the library's own argument, appends a line to the log when the task is done."""
+
+    def __init__(self, func, call, delays, log, mode):
+        self.func, self.call, self.delays, self.log, self.mode = func, call, delays, log, mode
+
+    def __call__(self, arg):
+        i, item = arg
+        d = self.delays.get(i, 0.0)
+        if d > 0:
+            time.sleep(d)
+        if self.mode == "star":
+            r = self.func(*item)
+        elif self.mode == "apply":
+            r = self.func(*item[0], **item[1])
+        else:
+            r = self.func(item)
+        fd = os.open(self.log, os.O_WRONLY | os.O_APPEND | os.O_CREAT, 0o600)
+        os.write(fd, ("%d %d %d\n" % (self.call, i, os.getpid())).encode())
+        os.close(fd)
+        return r
+
+
+_RP = {"cls": None, "ctx": None, "plan": {}, "log": None, "calls": []}
+
+
+class _RealPoolShim(object):
+    """The REAL multiprocessing pool behind the interface `sched.patched_pools` hands to the library: what the
+    builder submits (callable, arguments, chunk size, API) goes to a real pool of real processes unchanged, each
+    task wrapped in a `_Task`."""
+
+    def __init__(self, chooser, processes=None, *a, **kw):
+        kw = dict(kw)
+        kw.setdefault("context", _RP["ctx"])
+        self._pool = _RP["cls"](processes, *a, **kw)
+
+    def _task(self, func, n, api, chunksize, mode):
+        call = len(_RP["calls"])
+        _RP["calls"].append({"api": api, "n": n, "chunksize": chunksize})
+        return _Task(func, call, dict(_RP["plan"].get(call, {})), _RP["log"], mode)
+
+    def map(self, func, iterable, chunksize=None):
+        items = list(iterable)
+        return self._pool.map(self._task(func, len(items), "map", chunksize, "map"), list(enumerate(items)), chunksize)
+
+    def starmap(self, func, iterable, chunksize=None):
+        items = list(iterable)
+        return self._pool.map(self._task(func, len(items), "starmap", chunksize, "star"), list(enumerate(items)),
+                              chunksize)
+
+    def map_async(self, func, iterable, chunksize=None, callback=None, error_callback=None):
+        items = list(iterable)
+        return self._pool.map_async(self._task(func, len(items), "map_async", chunksize, "map"),
+                                    list(enumerate(items)), chunksize, callback, error_callback)
+
+    def starmap_async(self, func, iterable, chunksize=None, callback=None, error_callback=None):
+        items = list(iterable)
+        return self._pool.map_async(self._task(func, len(items), "starmap_async", chunksize, "star"),
+                                    list(enumerate(items)), chunksize, callback, error_callback)
+
+    def imap(self, func, iterable, chunksize=1):
+        items = list(iterable)
+        return self._pool.imap(self._task(func, len(items), "imap", chunksize, "map"), list(enumerate(items)),
+                               chunksize)
+
+    def imap_unordered(self, func, iterable, chunksize=1):
+        items = list(iterable)
+        return self._pool.imap_unordered(self._task(func, len(items), "imap_unordered", chunksize, "map"),
+                                         list(enumerate(items)), chunksize)
+
+    def apply_async(self, func, args=(), kwds=None, callback=None, error_callback=None):
+        t = self._task(func, 1, "apply_async", None, "apply")
+        return self._pool.apply_async(t, ((0, (tuple(args), dict(kwds or {}))),), {}, callback, error_callback)
+
+    def apply(self, func, args=(), kwds=None):
+        return self.apply_async(func, args, kwds).get()
+
+    def __enter__(self):
+        self._pool.__enter__()
+        return self
+
+    def __exit__(self, *exc):
+        return self._pool.__exit__(*exc)
+
+    def __getattr__(self, name):
+        return getattr(self._pool, name)
+
+
+class _real_pools(object):
+    """context manager: like `sched.patched_pools`, but the pools handed out are `_RealPoolShim`s (real processes).
+    patched_pools builds its pools by calling the name `sched.ControlledPool`; that name is pointed at the shim for
+    the duration of the block (cases of this check run in their own forked process, nobody else sees it)."""
+
+    def __init__(self, plan, log):
+        self.plan, self.log = plan, log
+
+    def __enter__(self):
+        import multiprocessing
+        import multiprocessing.pool
+        _RP.update(cls=multiprocessing.pool.Pool, ctx=multiprocessing.get_context("fork"), plan=self.plan,
+                   log=self.log, calls=[])
+        self._saved = sched.ControlledPool
+        sched.ControlledPool = _RealPoolShim
+        self._pp = sched.patched_pools(None)
+        try:
+            self._pp.__enter__()
+        except BaseException:
+            sched.ControlledPool = self._saved
+            raise
+        # the standard library's Pool refers to itself through the module attribute `multiprocessing.pool.Pool`
+        # (Pool._handle_workers, Pool._get_tasks, ...): a real pool only works while that name is the real class.
+        # Every other way to a pool stays redirected (a library that imports the class from multiprocessing.pool at
+        # call time then gets an unwrapped real pool: no forced order, which is recorded as "not claimed").
+        multiprocessing.pool.Pool = _RP["cls"]
+        return self
+
+    def __exit__(self, *exc):
+        try:
+            self._pp.__exit__(*exc)
+        finally:
+            sched.ControlledPool = self._saved
+        return False
+
+
+def _shutdown_real_pools():
+    """Last act of a process that ran builds on real pools: pools the builder kept alive (a pool cache is
+    legitimate) are shut down in an orderly way, maintenance thread first.  A live pool whose workers are killed
+    from outside (as `mc.isolate` does with whatever is left when the process ends) refills itself, and a process
+    that exits at that moment leaves workers behind that hold its parent's result pipe open for ever."""
+    import gc
+    import multiprocessing.pool
+    cls = _RP["cls"] or multiprocessing.pool.Pool
+    if not isinstance(cls, type):
+        return
+    for obj in gc.get_objects():
+        try:
+            if isinstance(obj, cls):
+                obj.terminate()
+        except Exception:
+            pass
+
+
+def _batches(orders):
+    """The map calls of one controlled execution, from its pool records: [(k, chunks, local completion order)] in
+    submission order, or None when the completions of different calls interleave (asynchronous submission: no forced
+    replay is attempted)."""
+    out = []
+    for od in orders:
+        starts = [i for i, chk in enumerate(od["chunks"]) if chk and chk[0] == 0]
+        if od["chunks"] and (not starts or starts[0] != 0):
+            return None
+        bounds = starts + [len(od["chunks"])]
+        comp = list(od["completion"])
+        pos = 0
+        for b in range(len(starts)):
+            lo, hi = bounds[b], bounds[b + 1]
+            part = comp[pos:pos + (hi - lo)]
+            pos += hi - lo
+            if sorted(part) != list(range(lo, hi)):
+                return None
+            out.append((od["k"], [list(c) for c in od["chunks"][lo:hi]], [q - lo for q in part]))
+    return out
+
+
+def _real_build(cfg, k, plan, log, ref_bits):
+    """one build of a fresh object on the real pool, tasks delayed as planned; runs in its own forked process (the
+    worker processes the build leaves behind end with it) -> (bit identical, exception text, calls seen)"""
+    with _real_pools(plan, log):
+        try:
+            try:
+                m = _make(cfg, threads=k).make_covariance_matrix()
+            except Exception as e:
+                return False, "raised %s: %s" % (type(e).__name__, str(e)[:300]), list(_RP["calls"])
+            return _bits(m) == ref_bits, None, list(_RP["calls"])
+        finally:
+            _shutdown_real_pools()
+
+
+def _real_schedules(cfg, k, bound, refs):
+    with _controlled() as ctx:
+        def run(prefix):
+            ch, (obs, orders, pools, held) = _execute(cfg, [k], [0], prefix, refs, ctx=ctx)
+            return ch, orders
+        runs, _ = sched.explore(run, bound=bound, max_runs=MAX_RUNS["quick"])
+    return runs
+
 
 def _real(p):
     """replay every schedule of one multi-process build on the real multiprocessing.Pool"""
-    from aotools.turbulence import slopecovariance as sc
+    from mc.isolate import isolated
     o = Out()
     cfg, k, bound = p["cfg"], p["k"], p["bound"]
-    ref_bits, _ = _reference(cfg)
-    # submission order of the tasks: record a single-process build
-    keys = []
-    orig = sc.wfs_covariance
+    ref_bits = _reference(cfg)
+    refs = {0: ref_bits}
 
-    def rec(*a):
-        keys.append(digest(list(a)))
-        return orig(*a)
-    sc.wfs_covariance = rec
-    try:
-        _make(cfg).make_covariance_matrix()
-    finally:
-        sc.wfs_covariance = orig
-    nl = len(CONFIGS[cfg]["layers"])
-    per_layer = len(keys) // nl
-    index = {}
-    for i, kk in enumerate(keys):
-        index.setdefault(kk, []).append((i // per_layer, i % per_layer))
-    chunks = sched.chunks_for(per_layer, k, "map")
-    # schedules from the explorer (controlled pool)
-    def run(prefix):
-        ch = sched.Chooser(prefix)
-        fake = sched.FakeMultiprocessing(ch)
-        saved = sc.multiprocessing
-        sc.multiprocessing = fake
-        try:
-            obj = _make(cfg)
-            obj.threads = k
-            obj.make_covariance_matrix()
-        finally:
-            sc.multiprocessing = saved
-        # one record per pool (= per build); the builder maps layer after layer, so the chunk ids of layer l are
-        # l*n .. (l+1)*n-1 and complete before those of layer l+1: split into per-layer completion orders
-        n = len(chunks)
-        comp = ch.orders[0]["completion"] if ch.orders else []
-        return ch, [[q - l * n for q in comp if l * n <= q < (l + 1) * n] for l in range(nl)]
-    runs, _ = sched.explore(run, bound=bound)
+    # schedules from the explorer (controlled pool): one build of a fresh object constructed with k workers.  In a
+    # process of its own: a builder that keeps its pools would otherwise hand the controlled pool of the exploration
+    # to the real builds below (which are forked from this process)
+    runs = isolated(_real_schedules, cfg, k, bound, refs)
     tmp = tempfile.mkdtemp(prefix="c03_real_")
     validated = 0
+    not_claimed = 0
     try:
         t_start = time.time()
         for choices, orders in runs:
             tag = "sched=" + ("".join(map(str, choices)) or "-")
-            ok_order = False
-            if time.time() - t_start > 45.0:
+            if time.time() - t_start > REAL_CAP_S[p.get("tier", "quick")]:
                 # only reachable when replays need their slow retries (never on a tree where orders reproduce)
                 o.stat("caps_hit", 1)
                 o.note("real_pool_replay_time_cap_hit_after", validated)
                 break
+            try:
+                batches = _batches(orders)
+            except Exception:
+                batches = None
+            ok_order = False
+            observed = None
+            attempt = 0
             for attempt, unit in enumerate((UNIT, UNIT * 3, UNIT * 8)):
                 log = os.path.join(tmp, "log_%s_%d" % (tag, attempt))
-                delays = {}
-                for layer, order in enumerate(orders):
-                    d = sched.delays_for(order, len(chunks), k, unit)
-                    for ci, ch in enumerate(chunks):
-                        delays[(layer, ch[0])] = d[ci]
-
-                seen_count = {}
-
-                def slow(*a, _log=log, _delays=delays):
-                    kk = digest(list(a))
-                    cands = index[kk]
-                    # identical argument tuples (if any) are told apart by a per-process counter
-                    c = seen_count.get(kk, 0)
-                    seen_count[kk] = c + 1
-                    layer, idx = cands[min(c, len(cands) - 1)]
-                    time.sleep(_delays.get((layer, idx), 0.0))
-                    r = orig(*a)
-                    fd = os.open(_log, os.O_WRONLY | os.O_APPEND | os.O_CREAT, 0o600)
-                    os.write(fd, ("%d %d %d\n" % (layer, idx, os.getpid())).encode())
-                    os.close(fd)
-                    return r
-                sc.wfs_covariance = slow
+                plan = {}
+                if batches is not None:
+                    try:
+                        for call, (bk, chunks, order) in enumerate(batches):
+                            d = sched.delays_for(order, len(chunks), bk, unit)
+                            plan[call] = {chk[0]: d[ci] for ci, chk in enumerate(chunks)}
+                    except Exception:
+                        plan, batches = {}, None       # the model's order cannot be forced by delays: plain build
                 try:
-                    obj = _make(cfg)
-                    obj.threads = k
-                    m = obj.make_covariance_matrix()
-                finally:
-                    sc.wfs_covariance = orig
+                    same, raised, calls = isolated(_real_build, cfg, k, plan, log, ref_bits)
+                except RuntimeError as e:
+                    if "died without a result" in str(e):     # a hard crash of the build under real processes
+                        same, raised, calls = False, "build process died", []
+                    else:       # an exception outside the library call (this check's own instrumentation)
+                        o.stat("real_pool_build_not_claimed", 1)
+                        o.note("real_pool_instrumentation_exception", str(e)[-400:])
+                        batches = None
+                        break
                 o.stat("real_pool_builds", 1)
-                o.check("real_pool_bit_identical", _bits(m) == ref_bits, sub=tag,
-                        detail={"orders": orders, "k": k})
-                lines = [tuple(map(int, l.split())) for l in open(log).read().split("\n") if l]
+                o.check("real_pool_bit_identical", raised is None and same, sub=tag,
+                        detail={"orders": [b[2] for b in batches] if batches else None, "k": k, "raised": raised})
+                if raised is not None or batches is None:
+                    break
+                # what ran on the real pool must be what ran on the controlled pool, call for call; if not (the
+                # builder reaches its pool in a way the shim does not see, e.g. an executor) nothing is claimed
+                if [c["n"] for c in calls] != [sum(len(chk) for chk in b[1]) for b in batches]:
+                    batches = None
+                    break
+                try:
+                    lines = [tuple(map(int, l.split())) for l in open(log).read().split("\n") if l]
+                except Exception:
+                    batches = None
+                    break
                 observed = []
-                for layer in range(nl):
-                    done_tasks = [idx for (ly, idx, pid) in lines if ly == layer]
+                for call, (bk, chunks, order) in enumerate(batches):
+                    done_tasks = [idx for (c, idx, pid) in lines if c == call]
                     # completion of a chunk = completion of its last task
-                    observed.append([ci for t in done_tasks for ci, ch in enumerate(chunks) if ch[-1] == t])
-                if observed == [list(x) for x in orders]:
+                    observed.append([ci for t in done_tasks for ci, chk in enumerate(chunks) if chk[-1] == t])
+                if observed == [list(b[2]) for b in batches]:
                     ok_order = True
                     break
-                if any(sorted(ob) != sorted(od) for ob, od in zip(observed, orders)) or len(observed) != len(orders):
+                if any(sorted(ob) != sorted(b[2]) for ob, b in zip(observed, batches)):
                     break       # not a timing matter: the tasks that ran are not the tasks of the model
+            o.stat("real_pool_order_attempts", attempt + 1)
+            if batches is None:
+                not_claimed += 1
+                continue
             if ok_order:
                 validated += 1
-            else:
-                o.note("order_not_reproduced_" + tag, {"wanted": orders, "observed": observed})
-            o.stat("real_pool_order_attempts", attempt + 1)
+            elif observed is not None:
+                o.note("order_not_reproduced_" + tag, {"wanted": [b[2] for b in batches], "observed": observed})
             # both directions: what the real pool did must be producible by the model
-            for layer in range(nl):
-                o.check("real_pool_order_feasible_in_model",
-                        sched.feasible(observed[layer], len(chunks), k), sub="%s:layer=%d" % (tag, layer),
-                        detail={"observed": observed[layer], "k": k})
+            if observed is not None:
+                for call, (bk, chunks, order) in enumerate(batches):
+                    if sorted(observed[call]) != list(range(len(chunks))):
+                        continue
+                    o.check("real_pool_order_feasible_in_model",
+                            sched.feasible(observed[call], len(chunks), bk), sub="%s:layer=%d" % (tag, call),
+                            detail={"observed": observed[call], "k": bk})
     finally:
         shutil.rmtree(tmp, ignore_errors=True)
+    if not_claimed:
+        o.stat("real_pool_forced_order_not_claimed", not_claimed)
     o.stat("traces_validated_against_impl", validated)
     o.stat("real_pool_schedules", len(runs))
     o.stat("states", 1)
     o.stat("transitions", len(runs))
     # binding evidence, not a property clause: recorded, a miss is visible in the evidence
     o.note("real_pool_orders_reproduced_%s_k%d" % (cfg, k), "%d/%d" % (validated, len(runs)))
+    return o
+
+
+def _realfifo_history(names, refs, letters):
+    """runs in its own forked process (the worker processes a build leaves behind end with it)"""
+    out = []
+    live = {}
+    try:
+        for step, (oi, t) in enumerate(letters):
+            try:
+                if oi not in live:
+                    live[oi] = _make(names[oi], threads=t)
+                else:
+                    live[oi].threads = t
+                m = live[oi].make_covariance_matrix()
+            except Exception as e:
+                out.append((step, False, "raised %s: %s" % (type(e).__name__, str(e)[:300])))
+                break
+            out.append((step, _bits(m) == refs[oi], None))
+            _caller_edit(m)
+    finally:
+        _shutdown_real_pools()
+    return out
+
+
+_HEAVY = ("S2",)
+
+
+def _realfifo(p):
+    """The library exactly as a user runs it - nothing patched, real processes, the schedule the OS produces:
+    a fresh object per worker count, then rebuild histories on one object (the caller overwriting each returned
+    matrix), then two objects of different geometry building in turn with the same worker counts."""
+    from mc.isolate import isolated
+    o = Out()
+    cfg = p["cfg"]
+    refs = {0: _reference(cfg)}
+    names = {0: cfg}
+    if cfg in ALT:
+        refs[1] = _reference(cfg + "~")
+        names[1] = cfg + "~"
+    o.stat("lib_calls", len(refs))
+    todo = [("fresh:k=%d" % k, [(0, k)]) for k in (2, 3, 4)]
+    words = ((2, 2, 1, 1, 3), (1, 3, 3, 2, 1), (4, 1, 4, 2, 2)) if cfg not in _HEAVY else ((2, 2, 1, 3),)
+    todo += [("h=%s" % "".join(map(str, w)), [(0, t) for t in w]) for w in words]
+    if 1 in refs:
+        todo.append(("pair=a2b2a3b3b2a2", [(0, 2), (1, 2), (0, 3), (1, 3), (1, 2), (0, 2)]))
+        if cfg not in _HEAVY:
+            todo.append(("pair=b4a4a1b1", [(1, 4), (0, 4), (0, 1), (1, 1)]))
+    for tag, letters in todo:
+        try:
+            res = isolated(_realfifo_history, names, refs, letters)
+        except RuntimeError as e:
+            if "died without a result" in str(e):       # a hard crash of a build under real processes
+                res = [(0, False, "history process died")]
+            else:       # an exception outside the library calls (this check's own code)
+                o.stat("real_pool_build_not_claimed", 1)
+                o.note("real_pool_instrumentation_exception", str(e)[-400:])
+                continue
+        for step, ok, why in res:
+            o.stat("real_pool_builds", 1 if letters[step][1] != 1 else 0)
+            o.check("real_pool_bit_identical", ok, sub="%s:build=%d" % (tag, step),
+                    detail=why or {"letters": [list(x) for x in letters]})
+    o.stat("states", 1)
+    o.stat("transitions", len(todo))
     return o
 
 
@@ -522,34 +1018,20 @@ def _selftest():
 
 
 def replay_one(p, failure):
-    """Re-executes exactly one recorded schedule of an `explore` case (no exploration): the history of
+    """Re-executes exactly one recorded schedule of an `explore` / `pair` case (no exploration): the history of
     builds with the recorded choice sequence under the controlled pool. -> (still_fails, description)"""
     import re as _re
-    from aotools.turbulence import slopecovariance as sc
-    if p["kind"] != "explore" or not failure.get("sub"):
+    m = _re.match(r"sched=([0-9-]+)(?::build=(\d+))?", failure.get("sub") or "")
+    if p["kind"] != "explore" or m is None:
         o = evaluate(p)
         ids = ["%s|%s" % (f["clause"], f["sub"]) for f in o.failures]
         return ("%s|%s" % (failure["clause"], failure["sub"])) in ids, "re-evaluated whole case"
-    m = _re.match(r"sched=([0-9-]+)(?::build=(\d+))?", failure["sub"])
     choices = [] if m.group(1) == "-" else [int(c) for c in m.group(1)]
-    ref_bits, ref_geom = _reference(p["cfg"])
-    ch = sched.Chooser(choices)
-    fake = sched.FakeMultiprocessing(ch)
-    saved = sc.multiprocessing
-    sc.multiprocessing = fake
-    res = []
-    try:
-        obj = _make(p["cfg"])
-        for t in p["hist"]:
-            obj.threads = t
-            try:
-                mtx = obj.make_covariance_matrix()
-                res.append(_bits(mtx) == ref_bits and _geom_state(obj) == ref_geom)
-            except Exception as e:
-                res.append("raised %s" % type(e).__name__)
-                break
-    finally:
-        sc.multiprocessing = saved
+    hist = p["hist"]
+    objs = p.get("objs") or [0] * len(hist)
+    refs = {oi: _reference(p["cfg"] + ("~" if oi else "")) for oi in sorted(set(objs))}
+    ch, (obs, orders, pools, held) = _execute(p["cfg"], hist, objs, choices, refs)
+    res = [("raised" if ob["raised"] else (ob["bits"] and ob["attr"] is not False)) for ob in obs]
     bad = [i for i, r in enumerate(res) if r is not True]
-    return bool(bad), "history threads=%s, choices=%s, completion orders=%s, per-build identical=%s" % (
-        p["hist"], choices, [od["completion"] for od in ch.orders], res)
+    return bool(bad), "history threads=%s objects=%s, choices=%s, completion orders=%s, per-build identical=%s" % (
+        hist, objs, choices, [od["completion"] for od in ch.orders], res)
